@@ -50,6 +50,8 @@ func cmdRun(args []string) {
 	solver := fs.String("solver", "z3", "")
 	verbose := fs.Bool("v", false, "")
 	prof := fs.String("cpuprofile", "", "")
+	sticky := fs.Bool("sticky", false, "one iteration order per map object")
+	mapOrder := fs.Int("maporder", 3, "")
 	fs.Parse(args)
 	if *prof != "" {
 		f, _ := os.Create(*prof)
@@ -69,7 +71,7 @@ func cmdRun(args []string) {
 		}
 	}
 	cfg := sym.RunConfig{PkgPath: pr.ModPath + "/" + *pkg, Harness: *name, Params: ps, MaxSteps: *steps, MaxDepth: 400, MaxMake: 64,
-		Workers: *workers, SolverBin: *solver, TimeoutMs: 20000, MapOrderMax: 3}
+		Workers: *workers, SolverBin: *solver, TimeoutMs: 20000, MapOrderMax: *mapOrder, MapOrderSticky: *sticky}
 	res := pr.Run(cfg)
 	fmt.Println(res.Summary())
 	for _, v := range res.Violations {
